@@ -256,6 +256,11 @@ def run_variant(repo_root, prop, name, rel, old, new, kind):
         shutil.rmtree(tmp, ignore_errors=True)
 
 
+# seeded changes that the checks answer with exit 2 (fail closed), by design: the change replaces an algorithm the rules
+# model by a different one, of which nothing positive can be said statically (DESIGN 5.2)
+UNDECIDABLE_SEEDS = {"C15-v1": "biccs rewritten from the edge-stack algorithm to a node-stack variant with a wrong pop"}
+
+
 def run_seed(repo_root, seed):
     d = os.path.join(VERIF, "seeded", seed)
     prop = seed.split("-")[0]
@@ -271,7 +276,8 @@ def run_seed(repo_root, seed):
         env = dict(os.environ, GV_EVIDENCE_DIR=os.path.join(tmp, "ev"), PYTHONDONTWRITEBYTECODE="1")
         q = subprocess.run([PY, "-m", "gv", "check", prop, "--tier", "quick", "--repo", dst], cwd=VERIF, capture_output=True, text=True, env=env)
         rules = sorted(set(re.findall(r"rule (R[\d.]+)", q.stdout)))
-        return {"prop": prop, "name": "seeded:" + seed, "kind": "break", "status": "ok" if q.returncode == 1 else "MISS", "exit": q.returncode, "rules": rules, "out": q.stdout[-400:] if q.returncode != 1 else ""}
+        want = (1, 2) if seed in UNDECIDABLE_SEEDS else (1,)  # never silent
+        return {"prop": prop, "name": "seeded:" + seed, "kind": "break", "status": "ok" if q.returncode in want else "MISS", "exit": q.returncode, "rules": rules, "out": q.stdout[-400:] if q.returncode not in want else ""}
     finally:
         shutil.rmtree(tmp, ignore_errors=True)
 
